@@ -231,6 +231,7 @@ class Engine:
             return g
         hyps = s.axioms_for(s.cur) + list(st.pc)
         g = Goal(s._gname(st, name), hyps, concl, kind, s.cur.key, getattr(node, "lineno", None), note)
+        g.trace = list(st.trace)
         s.goals.append(g)
         return g
 
